@@ -60,14 +60,21 @@ def check_entries(rep, prog, ts_term):
         raise AnalysisError("entry loop does not advance a stream")
     init, nxt, d, w = L.carried[idxk[0]]
     lv = [x for x in walk(L.cond) if isinstance(x, Sym) and x.kind == "loopvar"]
-    B = lv[0] if lv else None
-    ok = B is not None and init == Const(0) and L.cond == compare("le", add(B, Const(8)), Op("len", DATA))
+    if d is not None:
+        B = add(init, mul(L.idx, d))          # closed form: position at the start of iteration i
+    else:
+        B = lv[0] if lv else None
+    ok = B is not None and init == Const(0) and equivalent(pelx.ite(L.cond, Const(1), Const(0)),
+                                                        pelx.ite(compare("le", add(B, Const(8)), Op("len", DATA)), Const(1), Const(0)))[0]
     rep.check(ok, rule, "entries are read while a whole 8-byte entry remains (a trailing partial entry is ignored), starting at offset 0", where,
               L.node, "entry loop guard is %r (start %r): it must test that 8 bytes remain" % (L.cond, init), node=L.node)
     if B is None:
         return
-    e1, env, _ = equivalent(I.simp(nxt) if False else nxt, pelx.ite(L.cond, add(B, Const(8)), B))
-    rep.check(e1, rule, "each iteration consumes exactly 8 bytes", where, L.node, "an iteration consumes %r bytes: entries drift" % (sub(nxt, B),), node=L.node)
+    if d is not None:
+        e1 = d == Const(8)
+    else:
+        e1, env, _ = equivalent(nxt, pelx.ite(L.cond, add(B, Const(8)), B))
+    rep.check(e1, rule, "each iteration consumes exactly 8 bytes", where, L.node, "an iteration does not consume exactly 8 bytes: entries drift", node=L.node)
     ts, seq, pte = IntF(B, 2), IntF(add(B, Const(2)), 2), IntF(add(B, Const(4)), 4)
     heads = [i for i in items if i[0] == "v"]
     reps = [i for i in items if i[0] == "rep" and i[1] is L]
